@@ -106,6 +106,7 @@ where
 /// Maps the items of `I` while forwarding every protocol method (`nth`, `size_hint`, `count`,
 /// `last`) to `I` itself — unlike `Iterator::map`, whose provided methods go through `next()` only.
 /// For iterators whose items cannot be compared directly (signals, borrowed chunks).
+#[derive(Clone)]
 pub struct Through<I, F>(pub I, pub F);
 impl<I: Iterator, T, F: FnMut(I::Item) -> T> Iterator for Through<I, F> {
     type Item = T;
@@ -124,4 +125,31 @@ impl<I: Iterator, T, F: FnMut(I::Item) -> T> Iterator for Through<I, F> {
     fn last(mut self) -> Option<T> {
         self.0.last().map(&mut self.1)
     }
+}
+
+/// A clone taken after any number of items continues exactly like the original (which is not
+/// disturbed by it): for iterators that implement `Clone`.
+pub fn check_clone<I, T>(mk: &dyn Fn() -> I, expected: &[T]) -> Option<String>
+where
+    I: Iterator<Item = T> + Clone,
+    T: PartialEq + Debug + Clone,
+{
+    let n = expected.len();
+    for k in 0..=n.min(10) {
+        let mut it = mk();
+        for _ in 0..k {
+            it.next();
+        }
+        let mut c = it.clone();
+        let mut c2 = mk();
+        c2.clone_from(&it);
+        for j in k..n + 2 {
+            let e = expected.get(j);
+            let got = [c.next(), c2.next(), it.next()];
+            if got.iter().any(|g| g.as_ref() != e) {
+                return Some(format!("after {k} items: clone() / clone_from() into a fresh iterator / the original yield {got:?} as item #{j}, expected {e:?}"));
+            }
+        }
+    }
+    None
 }
